@@ -473,7 +473,7 @@ def r1311(ck, prog):
             n += 1
             skips = cfg.path_exists(b, t["some_target"], lambda v: v == h, avoid=frozenset(pushes) | (frozenset(range(len(b.blocks))) - inl),
                                     include_src=True)
-            ck.ob("R13.11", "loop:%d" % h, bool(pushes) and not skips,
+            ck.ob("R13.11", "loop:one-push-per-argument", bool(pushes) and not skips,
                   "every iteration that obtained an argument pushes one entry",
                   msg="<ArgValueList as Indexable>::index has an iteration over the written arguments that can go on to the "
                       "next argument without adding an entry to the list [%s]: the arguments after it shift one position "
